@@ -28,7 +28,8 @@ Notation SV := SyltSem.SV.
 Inductive vrel : sval -> value -> Prop :=
 | vr_int z : vrel (SV (Values.VInt z)) (VNum false (q_int z))
 | vr_bool b : vrel (SV (Values.VBool b)) (VBool b)
-| vr_nil : vrel (SV Values.VLuaNil) VNil.
+| vr_nil : vrel (SV Values.VLuaNil) VNil
+| vr_str s : vrel (SV (Values.VStr s)) (VStr s).
 
 (* ------------------------------------------------------------------ Lua states and environments *)
 
